@@ -217,6 +217,16 @@ def run_case(R, case, w, rec, box, body_req, maxlen, cl, abort_after, validate, 
     rec.reset(ev)
     env, inp = drive.make_environ(body_req['method'], body_req['path'], body_req['qs'], body_req['body'],
                                   body_req['content_type'], content_length=cl)
+    if case.get('lean'):
+        # the environ a gateway hands over when it leaves out what PEP 3333 lets it leave out: QUERY_STRING, SCRIPT_NAME and
+        # PATH_INFO "may be empty or absent", CONTENT_TYPE "may be empty or absent"
+        if not env.get('QUERY_STRING'):
+            env.pop('QUERY_STRING', None)
+        env.pop('SCRIPT_NAME', None)
+        if env.get('PATH_INFO') in ('/', ''):
+            env.pop('PATH_INFO', None)
+        if case['lean'] == 'no_content_type':
+            env.pop('CONTENT_TYPE', None)
     r = drive.call_wsgi(w, env, inp, events=ev, abort_after=abort_after, validate=validate)
     box[0] = None
     blen = len(body_req['body'])
@@ -322,6 +332,12 @@ def run(spec, R):
                 for k in range(0, full + 1):
                     r3, viol3 = run_case(R, case, w, rec, box, breq, maxlen, cl, k, False, full)
                     report(R, case, k, r3, viol3, breq)
+                if clname in ('equal', 'absent') and maxlen > 10000:
+                    for lean in ('minimal', 'no_content_type'):
+                        lcase = dict(case, lean=lean)
+                        r4, viol4 = run_case(R, lcase, w, rec, box, breq, maxlen, cl, None, False, full)
+                        report(R, lcase, None, r4, viol4, breq)
+                        R.count('lean_environs')
                 limit_class = ('huge' if maxlen > 10000 else 'eq' if maxlen == blen else 'lt' if maxlen < blen else 'gt',
                                'block>max' if block > maxlen else 'block<=max')
                 if r.sr_calls:
@@ -349,7 +365,7 @@ def replay(v, R):
     if isinstance(body, dict):
         import base64
         breq = dict(breq, body=base64.b64decode(body['b64']))
-    case = {k: c[k] for k in ('kind', 'chunked', 'req', 'max', 'block', 'cl', 'cl_value')}
+    case = {k: c[k] for k in ('kind', 'chunked', 'req', 'max', 'block', 'cl', 'cl_value', 'lean') if k in c}
     r0, _ = run_case(R, case, w, rec, box, breq, c['max'], c['cl_value'], None, False)
     r, viol = run_case(R, case, w, rec, box, breq, c['max'], c['cl_value'], c.get('abort_after'), bool(c.get('validate')),
                        len(r0.chunks))
